@@ -258,6 +258,31 @@ def apply_damage(job, rng, files, ecc, ents):
                     i = hoff + rng.randrange(hlen_)
                     ecc[i] = rnd_other(rng, {ecc[i], 0xFE, 0xFF, 0xFA})
         return note
+    if kind == 'parity_swap':
+        # the stored parity of a block is replaced by the parity of a NEIGHBOURING message (one byte changed); the block and
+        # its stored hash stay intact.  Block + parity then lies within the radius of another codeword: a tool that consults
+        # the ecc although the hash matches (not the default mode) "corrects" the intact block into the neighbour.
+        from pyFileFixity.lib.eccman import ECCMan
+        man = None
+        hit = 0
+        for rel in targets:
+            e = ents[rel]
+            for bi, (off, l, k, es) in enumerate(e['blocks']):
+                if es < 2 or l < 1 or (d.get('blocks') == 'some' and rng.random() < 0.4):
+                    continue
+                m = bytearray(files[rel][off:off + l])
+                i = rng.randrange(l)
+                m[i] = rnd_other(rng, {m[i]})
+                if man is None:
+                    man = ECCMan(job['mb'], k, algo=job['algo'])
+                par = bytes(bytearray(man.encode(bytes(m), k=k)))
+                toff, tl = track_pos(e, bi, 'parity')
+                if len(par) != tl or ENTRYMARKER[:2] in par or FIELD_DELIM[:2] in par:
+                    continue
+                ecc[toff:toff + tl] = par
+                hit += 1
+        note['blocks_hit'] = hit
+        return note
     if kind in ('file_rand', 'file_burst', 'file_zero', 'file_all'):
         for rel in targets:
             f = files[rel]
